@@ -107,6 +107,70 @@ def joinToks (l : Line) : String := if l = [] then "-" else ",".intercalate (l.m
 
 def pShape : P (List Nat) := do let n ← pNat; pMany n pNat
 
+/-! routes: scripts of dumps and loads over named files and in-memory streams -/
+
+inductive ROp where
+  | write (p : String) (t : List Char)
+  | dump (k : Sink) (t : List Char)
+  | load (s : Source)
+
+def pSink : P Sink := do
+  let c ← tok; let a ← tok
+  match c with
+  | "ret" => pure .ret
+  | "path" => pure (.path a)
+  | "pathobj" => pure (.pathObj a)
+  | "pathlike" => pure (.pathLike a)
+  | "text" => pure (.textFile a)
+  | "binary" => pure (.binFile a)
+  | "stringio" => match a.toNat? with | some h => pure (.stringIO h) | none => failure
+  | _ => failure
+
+def pSource : P Source := do
+  let c ← tok
+  match c with
+  | "strtext" => do pure (.str (← pHex))
+  | "bytes" => do pure (.bytes (← pHex))
+  | "bytesio" => do pure (.bytesIO (← pHex))
+  | "pathobj" => do pure (.pathObj (← tok))
+  | "bin" => do pure (.binFile (← tok))
+  | "textfile" => do pure (.textFile (← tok))
+  | "other" => do let _ ← tok; pure .other
+  | _ => failure
+
+def pROp : P ROp := do
+  let c ← tok
+  match c with
+  | "w" => do let n ← tok; let t ← pHex; pure (.write n t)
+  | "d" => do let k ← pSink; let t ← pHex; pure (.dump k t)
+  | "l" => do pure (.load (← pSource))
+  | _ => failure
+
+/-- one step; the caller's `open(p, 'w')` / `open(p, 'wb')` empties the file before the writer sees the stream. -/
+def stepROp (readsFirst : Bool) (w : World) : ROp → World × String
+  | .write p t => (w.setFile p t, "-")
+  | .dump k t =>
+    let w0 := match k with
+      | .textFile p => w.setFile p []
+      | .binFile p => w.setFile p []
+      | _ => w
+    match dumpTo w0 k t with
+    | .ok (w', some r) => (w', "r" ++ showHex r)
+    | .ok (w', none) => (w', "n")
+    | .error e => (w0, "e:" ++ e)
+  | .load s =>
+    match (if readsFirst then sourceTextRead w s else sourceText w s) with
+    | .ok t => (w, "t" ++ showHex t)
+    | .error e => (w, "e:" ++ e)
+
+def runROps (readsFirst : Bool) (w : World) : List ROp → List String → World × List String
+  | [], acc => (w, acc.reverse)
+  | op :: ops, acc => let (w', r) := stepROp readsFirst w op; runROps readsFirst w' ops (r :: acc)
+
+def showWorld (w : World) : String :=
+  " | " ++ " ".intercalate (w.files.map fun e => e.1 ++ "=" ++ showHex e.2) ++
+  " | " ++ " ".intercalate (w.bufs.map fun e => toString e.1 ++ "=" ++ showHex e.2)
+
 def handleC08 (toks : List String) : String :=
   match toks with
   | "ldata" :: rest =>
@@ -157,6 +221,10 @@ def handleC08 (toks : List String) : String :=
           "ok " ++ showRats t.flatten ++ " | " ++ " ".intercalate ((allIndices shape).map (indexName "p")) ++ " | " ++
             " ".intercalate ((allIndices shape).map fun ix => match t.get? ix with | some q => showRat q | none => "?") ++
             " | " ++ showBool (t.hasShape shape)
+  | "route" :: rest =>
+    run (do let rf ← pBool; let n ← pNat; let ops ← pMany n pROp; pure (rf, ops)) rest fun (rf, ops) =>
+      let (w, rs) := runROps rf ⟨[], []⟩ ops []
+      "ok " ++ " ".intercalate rs ++ showWorld w
   | _ => err "op"
 
 def main : IO Unit := runDriver handleC08
